@@ -323,3 +323,81 @@ ALL_SIM_MONITORS = {
     "tick_times": mon_tick_times,
     "pacing": mon_pacing,
 }
+
+
+# ------------------------------------------------------------------ interrupts (C07)
+def mon_interrupts(scn, run):
+    """every interrupt raised once the master has begun its initial tick is followed by an
+    update of that device that begins after the raise, and all real time elapsed in between
+    is accounted for by processing cost (i.e. nobody slept waiting for an unrelated callback)"""
+    out = []
+    tr = run["trace"]
+    tid = master_tid(run)
+    first_call = next((e for e in tr.of("t-call") if e["tid"] == tid), None)
+    if first_call is None:
+        return out
+    costs = {d["name"]: d.get("beh", {}).get("cost", 0) for d in S.devices(scn)}
+    ups = tr.of("update")
+    for R in tr.of("raise"):
+        if not R.get("ok") or R["n"] < first_call["n"]:
+            continue
+        U = next((u for u in ups if u["comp"] == R["comp"] and u["n"] > R["n"]), None)
+        where = phase_of(tr, tid, R)
+        if U is None:
+            out.append(V("interrupt-lost", f"{R['comp']} raised an interrupt at real={R['real']} step={R['step']} ({where}) and was never updated afterwards",
+                         comp=R["comp"], phase=where, depth=S.depth_map(scn).get(R["comp"])))
+            continue
+        spent = sum(costs.get(u["comp"], 0) for u in ups if R["n"] < u["n"] < U["n"])
+        # cost of an update in progress at the time of the raise counts too
+        elapsed = U["real"] - R["real"]
+        inprog = max((costs.get(u["comp"], 0) for u in ups if u["n"] < R["n"] and u["real"] + costs.get(u["comp"], 0) > R["real"]), default=0)
+        if elapsed > spent + inprog:
+            out.append(V("interrupt-served-late", f"{R['comp']} raised at real={R['real']} ({where}) served at real={U['real']}: {elapsed}ns elapsed, only {spent + inprog}ns of processing",
+                         comp=R["comp"], phase=where, depth=S.depth_map(scn).get(R["comp"])))
+    return out
+
+
+def phase_of(tr, tid, R):
+    """where the master was when event R happened"""
+    calls = [e for e in tr.of("t-call") if e["tid"] == tid and e["n"] < R["n"]]
+    dones = [e for e in tr.of("t-done") if e["tid"] == tid and e["n"] < R["n"]]
+    if len(calls) > len(dones):
+        return "initial-tick" if len(calls) == 1 else "mid-tick"
+    return "between-ticks"
+
+
+def mon_interrupt_stamp(scn, run):
+    """C12: an interrupt is stamped with the simulation time corresponding to the real time
+    at which it arrived (checked for interrupts that arrive between ticks and are served by
+    their own tick)"""
+    out = []
+    tr = run["trace"]
+    tid = master_tid(run)
+    num, den = scn.get("speed", [1, 1])
+    calls = [e for e in tr.of("t-call") if e["tid"] == tid]
+    dones = [e for e in tr.of("t-done") if e["tid"] == tid]
+    par = S.parent_map(scn)
+
+    def top_of(c):
+        while par.get(c, "") != "":
+            c = par[c]
+        return c
+    for R in tr.of("raise"):
+        if not R.get("ok"):
+            continue
+        prev_done = [d for d in dones if d["n"] < R["n"]]
+        prev_calls = [c for c in calls if c["n"] < R["n"]]
+        if not prev_done or len(prev_calls) != len(prev_done):
+            continue  # mid-tick: covered by C07 monitors
+        nxt = next((c for c in calls if c["n"] > R["n"]), None)
+        if nxt is None or top_of(R["comp"]) not in nxt["roots"]:
+            continue
+        last_t, last_real = prev_calls[-1]["time"], prev_done[-1]["real"]
+        exp = last_t + ((R["real"] - last_real) * num) // den
+        if nxt["time"] != exp and nxt["real"] == R["real"]:
+            out.append(V("interrupt-stamp-wrong", f"interrupt of {R['comp']} at real={R['real']} (prev tick t={last_t} ended real={last_real}, speed {num}/{den}) served by tick @{nxt['time']}, expected @{exp}", comp=R["comp"]))
+    return out
+
+
+ALL_SIM_MONITORS["interrupts"] = mon_interrupts
+ALL_SIM_MONITORS["interrupt_stamp"] = mon_interrupt_stamp
